@@ -6,6 +6,12 @@ props = [json.loads(l) for l in open('/verif/properties.jsonl')]
 
 # id -> (level, technique, text, note, design_ref)
 CHECKS = {
+ 'C01': ('exploration', 'run-time contract (result == independent reference semantics specs/michelson_ref.py) over type-directed enumeration of well-typed programs x boundary inputs x environments (bounded)',
+         'all programs up to a small length per theme alphabet (stack, control, lambdas, structures, strings/bytes, arithmetic, environment) + seeded type-directed walks, generated from the reference typing rules; final stack or FAILWITH value compared; the reference is validated against 314 recorded Octez (script, storage, input, expected) tuples; ~100 execute bodies over dynamically created classes are beyond a whole-interpreter proof (the deductive parts are in C03/C05/C10/C16/C20)',
+         'bounded program size/inputs; oracle = specs/michelson_ref.py (validated on recorded Octez artefacts); 4 known findings', '5/C01'),
+ 'C02': ('exploration', 'run-time contract (type of every slot == reference typing rules, annotations stripped) over the C01 program enumeration with composite key/element type shapes (bounded)',
+         'every value left on the stack and the resulting storage has exactly the statically expected type; MAP/ITER keep key and element types; one known finding (MAP over an empty collection)',
+         'bounded; oracle = reference typechecker in specs/michelson_ref.py', '5/C02'),
  'C03': ('other', 'PyVC symbolic execution of the real compare/__lt__/__eq__ ASTs on enumerated comparable type shapes with symbolic leaves (S, complete in values); run-time contracts on domain types and set literals (R)',
          'for every enumerated comparable type shape (depth <= 2, thorough 3) and every None/Some, Left/Right variant pair, compare(a,b) equals the Michelson order and is antisymmetric for ALL leaf values; domain types (address, key_hash, key, signature, chain_id) and ordered collections on real boundary values, all pairs + triples',
          'assumed: CPython order on int/str/bytes; strings modelled by integer ranks; not demanded: default-vs-named entrypoint order, P-256 tie-break; bounded type shapes', '5/C03'),
@@ -27,12 +33,18 @@ CHECKS = {
  'C10': ('other', 'PyVC: symbolic execution of the real forge/unforge ASTs with all payload bytes symbolic, base58 by the C09 contracts (ghost strings), z3 (P); run-time contracts on the domain types (R, bounded)',
          'address (22-byte and 21-byte key-hash forms), contract+entrypoint (every name, symbolic bytes, length 1..31), public key, signature and chain-id round trips and exact layouts proved for ALL payload bytes; typed-value layer checked at run time on boundary/random strings',
          'assumed: C09 contracts of base58_encode/base58_decode/b58decode_check; str.encode/decode inverse; PyVC encoding; z3', '5/C10'),
+ 'C17': ('exploration', 'relational run-time contract: execution results, failures and PACK bytes are invariant under every re-annotation of the type arguments (bounded)',
+         'programs over pair/option/or/collection manipulation x all re-annotations ({none, %a, :t, both}) of each type argument to depth 3 x values: same outcome, same types modulo annotations, same PACK bytes',
+         'bounded program/annotation enumeration', '5/C17'),
  'C18': ('exploration', 'run-time contract (format∘parse identity) over exhaustive bounded enumeration of well-sorted Micheline',
          'every primitive of the live table in every admissible argument slot, all expressions up to 5 (7) nodes over a reduced alphabet, literal/escape/annotation boundary classes, inline and multi-line layouts incl. narrow widths; the PLY-generated parser and json.dumps are external, no deductive part',
          'bounded; external: ply tables, json.dumps; grammar of sorts/arity in specs/C18_michelson_grammar.py', '5/C18'),
  'C30': ('exploration', 'run-time contract (apply∘make_patch, revert) over exhaustive bounded enumeration of text pairs',
          'all pairs of texts up to 4 (6) lines over a 3-line alphabet, with/without trailing newline, empty texts, context sizes 0..3; Protocol.diff/patch on small offline Protocol objects; difflib is external, no deductive part',
          'bounded; external: difflib.unified_diff', '5/C30'),
+ 'C32': ('other', 'PyVC: structural-induction step of check_code over a ghost node with symbolic primitive and a ghost argument sequence of symbolic length (loop invariant, recursion by contract) and the name clause over z3 strings/regex (P); run-time contract on ViewSection.match (R)',
+         'check_code raises exactly for SELF anywhere and for TRANSFER_TOKENS/CREATE_CONTRACT/SET_DELEGATE outside LAMBDA, LAMBDA_REC and PUSH bodies, for trees of any shape (induction); create_type rejects exactly names longer than 31 or with a character outside [A-Za-z0-9_.%@]; end-to-end match on enumerated names and code trees; one known finding (Lambda_rec literal unregistered)',
+         'assumed: finite trees (induction), primitives partitioned into 8 named + other, re.fullmatch translated to z3 regex; PyVC encoding; z3', '5/C32'),
  'C33': ('exploration', 'run-time contract against an independent spec_expand over bounded enumeration of scripts and reference graphs',
          'scripts up to size 5 with references in type/code/data position, acyclic constant graphs to depth 3, unknown hashes; hash recomputed independently (Micheline encoder + blake2b + base58 expr)',
          'bounded; shell RPC stubbed by monkeypatch; specs/global_constants.py checked against 7 recorded hashes', '5/C33'),
